@@ -66,14 +66,15 @@ fn build(ch: &mut Chooser, fmt: &str) -> Case {
             let mut sh = xlsx::XSheet::new(n, cells);
             sh.merges = merges[i].iter().map(|r| rf(*r)).collect();
             for t in tables.iter().filter(|t| t.sheet == i) {
-                sh.tables.push(xlsx::XTable { name: t.name.clone(), display_name: t.name.clone(), rf: rf(t.rg),
+                // the name attribute is an internal identifier; displayName is the table's name in formulas and in the API
+                sh.tables.push(xlsx::XTable { name: if t.extras { format!("Tbl_{}", t.sheet + 1) } else { t.name.clone() }, display_name: t.name.clone(), rf: rf(t.rg),
                     header_rows: if t.header == 0 { Some(0) } else if t.explicit_counts { Some(1) } else { None },
                     totals_rows: if t.totals == 1 { Some(1) } else if t.explicit_counts { Some(0) } else { None },
                     totals_row_shown: match t.shown { 0 => None, 1 => Some(true), _ => Some(false) }, columns: t.columns.clone(), extras: t.extras });
             }
             b.sheets.push(sh);
         }
-        xlsx::write(&b, &xlsx::XEnc { odd_table_part_names: !tables.is_empty() && ch.flag("xlsx.table-parts-outside-xl/tables"), prefix: ch.flag("xlsx.prefix"), indent: ch.flag("xlsx.indented"), comments: ch.flag("xlsx.comments-between-elements"), extras: ch.flag("xlsx.optional-neighbours-of-sheetData"), rels_target_first: ch.flag("xlsx.rels-target-before-type"), ..Default::default() })
+        xlsx::write(&b, &xlsx::XEnc { sheet_subfolder: ch.flag("xlsx.sheet-parts-in-a-sub-folder"), odd_table_part_names: !tables.is_empty() && ch.flag("xlsx.table-parts-outside-xl/tables"), prefix: ch.flag("xlsx.prefix"), indent: ch.flag("xlsx.indented"), comments: ch.flag("xlsx.comments-between-elements"), extras: ch.flag("xlsx.optional-neighbours-of-sheetData"), rels_target_first: ch.flag("xlsx.rels-target-before-type"), ..Default::default() })
     } else {
         let mut b = biff8::BBook::default();
         for (i, n) in sheets.iter().enumerate() {
